@@ -194,6 +194,8 @@ int main(int argc, char** argv) {
 #endif
     for (i = 0; i < ncx; ++i) {
       memset(&cxs[i], 0, sizeof(cxs[i]));
+      // the API does not require zeroed storage for a context: half of them start from a dirty struct
+      if (vp_rand(&rng) & 1) memset(&cxs[i].ctx, 0xA5, sizeof(cxs[i].ctx));
       cxs[i].self = &cxs[i];
       cxs[i].id = i;
       cxs[i].rng = vp_mix(vp_cfg.seed, (uint64_t)trial * 1000 + (uint64_t)i);
